@@ -546,7 +546,8 @@ theorem addSample_step (b : Bank) (rs : List Win) (h : Sample) (data : Bytes) (b
     StepOut b rs (stepRegions b h data rs) h data b' idx := by
   unfold addSample at hr
   have hb0 : ¬ b.bankSize = 0 := by have := inv.bankPos; omega
-  simp only [hb0, if_false] at hr
+  have hsz0 : ¬ h.size > data.length := by have := adm.fits; omega
+  simp only [hb0, hsz0, if_false] at hr
   split at hr
   · -- shared data
     rename_i d hd
